@@ -336,6 +336,110 @@ def upstream_py_case(args):
     return name, "ran", (ntests, fails)
 
 
+# ---------------------------------------------------------------- the whole range of every integer type
+INT_RANGES = {"short": (16, True), "int": (32, True), "long": (64, True), "long long": (64, True), "unsigned short": (16, False), "unsigned int": (32, False),
+              "unsigned long": (64, False), "unsigned long long": (64, False), "size_t": (64, False), "int8_t": (8, True), "int16_t": (16, True),
+              "int32_t": (32, True), "int64_t": (64, True), "uint8_t": (8, False), "uint16_t": (16, False), "uint32_t": (32, False), "uint64_t": (64, False)}
+# what each PyArg_Parse format unit stores through the pointer it is given (bytes); CPython's documentation of the units
+UNIT_BYTES = {"b": 1, "B": 1, "h": 2, "H": 2, "i": 4, "I": 4, "l": 8, "k": 8, "L": 8, "K": 8, "n": 8, "f": 4, "d": 8, "c": 1, "C": 4, "p": 4}
+
+
+def int_values(tn):
+    bits, signed = INT_RANGES[tn]
+    if signed:
+        return [0, 1, -1, 2 ** (bits - 1) - 1, -2 ** (bits - 1)]
+    return [0, 1, 2 ** (bits - 1) - 1, 2 ** (bits - 1), 2 ** bits - 1]
+
+
+def integer_range_case(args):
+    """Every integer type of the type table as result, as argument and as intent(out) scalar, at the ends of ITS range (a value
+    the C type holds is a value the library may return and the caller may pass).  Returns [(key, message)], calls."""
+    workdir, lang = args
+    import re
+
+    decls, hdr, src = [], "#include <stddef.h>\n#include <stdint.h>\n", '#include "ints.h"\n'
+    drv = ["import ints", "def show(tag, fn):", "    try:", "        print('OBS', tag, '->', repr(fn()))", "    except Exception as e:",
+           "        print('OBS', tag, 'raises', type(e).__name__)"]
+    exp = []
+    for tn in sorted(INT_RANGES):
+        i = tn.replace(" ", "_")
+        bits, signed = INT_RANGES[tn]
+        lit = lambda v: ("(%s) %dULL" % (tn, v)) if v >= 0 else ("(%s) (-%dLL - 1)" % (tn, -v - 1))
+        decls.append({"decl": "%s echo_%s(%s v)" % (tn, i, tn)})
+        hdr += "%s echo_%s(%s v);\n" % (tn, i, tn)
+        src += "%s echo_%s(%s v) { return v; }\n" % (tn, i, tn)
+        for k, v in enumerate(int_values(tn)):
+            decls += [{"decl": "%s res%d_%s(void)" % (tn, k, i)}, {"decl": "void out%d_%s(%s *v +intent(out))" % (k, i, tn)}]
+            hdr += "%s res%d_%s(void);\nvoid out%d_%s(%s *v);\n" % (tn, k, i, k, i, tn)
+            src += "%s res%d_%s(void) { return %s; }\nvoid out%d_%s(%s *v) { *v = %s; }\n" % (tn, k, i, lit(v), k, i, tn, lit(v))
+            for tag, call in (("result", "ints.res%d_%s()" % (k, i)), ("out-argument", "ints.out%d_%s()" % (k, i)), ("argument", "ints.echo_%s(%d)" % (i, v))):
+                drv.append("show(%r, lambda: %s)" % ("%s %s %d" % (tn, tag, v), call))
+                exp.append(("%s %s %d" % (tn, tag, v), tn, tag, v))
+    y = {"library": "ints", "cxx_header": "ints.h", "options": {"wrap_c": False, "wrap_fortran": False, "wrap_lua": False, "wrap_python": True, "PY_array_arg": "list"},
+         "declarations": decls}
+    if lang == "c":
+        y["language"] = "c"
+    os.makedirs(workdir)
+    r, tree = gen.gen_tree(workdir, y, keep=True)
+    if r.status != "ok":
+        shutil.rmtree(workdir, ignore_errors=True)
+        return [("integer-range generate [%s]" % lang, "%s %s: %s" % (r.status, r.exc, (r.msg or "")[:300]))], 0
+    out = os.path.join(workdir, "out")
+    ext = "c" if lang == "c" else "cpp"
+    open(os.path.join(out, "ints.h"), "w").write(hdr)
+    open(os.path.join(out, "subject." + ext), "w").write(src)
+    open(os.path.join(out, "driver.py"), "w").write("\n".join(drv) + "\n")
+    errs = []
+    # (a) each format unit stores into a variable of its own width
+    for fn in sorted(os.listdir(out)):
+        if not (fn.startswith("py") and fn.endswith("." + ext)):
+            continue
+        text = open(os.path.join(out, fn)).read()
+        for m in re.finditer(r"\n(PY_\w+)\(\n(.*?)\n\}\n", text, re.S):
+            body = m.group(2)
+            pm = re.search(r'PyArg_ParseTupleAndKeywords\(args, kwds,\s*"([^":]*)[:"][^,]*,\s*[^,]+,\s*([^;]*?)\)\)', body, re.S)
+            if not pm:
+                continue
+            units = [u for u in pm.group(1) if u != "|"]
+            targets = [a.strip().lstrip("&") for a in pm.group(2).split(",")]
+            for u, var in zip(units, targets):
+                dm = re.search(r"^\s*((?:unsigned |long |short |const )*\w+)\s+%s\s*(?:=[^;]*)?;" % re.escape(var), body, re.M)
+                if not dm or u not in UNIT_BYTES or dm.group(1) not in INT_RANGES:
+                    continue
+                have = INT_RANGES[dm.group(1)][0] // 8
+                if have != UNIT_BYTES[u]:
+                    errs.append(("py: %s argument parsed with format unit '%s'" % (dm.group(1), u),
+                                 "%s: %s parses the %s argument '%s' with format unit '%s', which stores %d bytes through the pointer; the variable has %d" % (
+                                     fn, m.group(1), dm.group(1), var, u, UNIT_BYTES[u], have)))
+    try:
+        csrc = sorted(f for f in os.listdir(out) if f.endswith("." + ext))
+        objs = build.compile_c_family(out, csrc, lang, incs=[PYINC], extra=["-fPIC"])
+        rc, so, se = build.sh(["gcc" if lang == "c" else "g++", "-shared", "-o", "ints.so"] + objs, out)
+        if rc != 0:
+            raise build.BuildError("link", se[:800])
+    except build.BuildError as e:
+        shutil.rmtree(workdir, ignore_errors=True)
+        return errs + [("integer-range build [%s]" % lang, str(e)[:900])], 0
+    rc, so, se = build.sh([PY, "driver.py"], out, env=dict(os.environ, PYTHONDONTWRITEBYTECODE="1"), timeout=120)
+    got = {}
+    for l in so.split("\n"):
+        if l.startswith("OBS "):
+            tag, _, val = l[4:].partition(" -> ") if " -> " in l else (l[4:].rpartition(" raises ")[0], "", "raises " + l.rpartition(" raises ")[2])
+            got[tag] = val
+    if rc != 0:
+        errs.append(("integer-range run [%s]" % lang, "driver exit %d: %s" % (rc, (se or "")[-300:])))
+    for tag, tn, kind, v in exp:
+        g = got.get(tag, "(missing)")
+        if g != repr(v):
+            bits, signed = INT_RANGES[tn]
+            where = "in the signed range" if -2 ** 63 <= v < 2 ** (bits - 1) else "above the range of the signed type of the same width"
+            errs.append(("py: %s %s %s" % (tn, kind, where),
+                         "[%s] %s %s: the library %s %d, Python %s" % (lang, tn, kind, "receives" if kind == "argument" else "returns", v,
+                                                                       "gets %s" % g if not g.startswith("raises") else g)))
+    shutil.rmtree(workdir, ignore_errors=True)
+    return errs, len(exp)
+
+
 def class_funcs():
     """Methods act on the object they are called on: covered through the Cls atoms (two live objects) and
     the class scenario below."""
@@ -413,6 +517,15 @@ def run(ctx):
         calls += sn
         for kind, what, msg in serrs:
             ctx.violation("%s %s%s" % (kind, what, " [%s]" % ",".join(more) if more else ""), msg + (" (options %s)" % more if more else ""), {"kind": kind, "scenario": True, "options": more})
+    ires = isolate.pmap(integer_range_case, [(os.path.join(wd, "ints-" + lang), lang) for lang in ("cxx", "c")], W)
+    iseen = set()
+    for ierrs, n in ires:
+        calls += n
+        for key, msg in ierrs:
+            if key not in iseen:
+                iseen.add(key)
+                ctx.violation(key, msg, {"kind": "integer-range"})
+    ctx.part("integer_ranges", types=sorted(INT_RANGES), values_per_type=5, positions=["result", "out-argument", "argument"], languages=["cxx", "c"])
     ures = isolate.pmap(upstream_py_case, [(os.path.join(wd, "up-" + n), ctx.repo, n) for n in UPSTREAM_PY], W)
     ran, ntests, skipped = [], 0, []
     for name, st, info in ures:
